@@ -92,14 +92,14 @@ pub fn expectation<S: Subject>(sim: &Sim<S>, r: usize, op: usize) -> Expect {
         },
         Sem::Merkle { children, .. } => {
             let m = MerkleModel::build(metas, know);
+            // Ok iff applying the op would insert it into the visible DAG at once, i.e. every child is visible;
+            // otherwise MissingChild(h) for some child h that is not visible (never received, or received but
+            // itself still buffered as an orphan)
             let invisible: Vec<String> = children.iter().filter(|c| !m.visible.contains(*c)).map(|c| format!("MissingChild({})", hx(c))).collect();
-            let unreceived = children.iter().any(|c| !m.received.contains_key(c));
             if invisible.is_empty() {
                 Expect::Ok
-            } else if unreceived {
-                Expect::ErrOneOf(invisible)
             } else {
-                Expect::Either
+                Expect::ErrOneOf(invisible)
             }
         }
         _ => Expect::Ok,
@@ -181,25 +181,25 @@ fn add<S: Subject>(jobs: &mut Vec<Box<dyn JobT>>, disc: Disc, q: u64, t: u64) {
 
 pub fn property() -> Property {
     let mut jobs: Vec<Box<dyn JobT>> = Vec::new();
-    add::<SVClock>(&mut jobs, Disc::Any, 4000, 100_000);
-    add::<SOrswot>(&mut jobs, Disc::Fifo, 5000, 150_000);
-    add::<SList>(&mut jobs, Disc::Causal, 4000, 100_000);
-    add::<MapOrswot>(&mut jobs, Disc::Causal, 5000, 150_000);
-    add::<MapMVReg>(&mut jobs, Disc::Causal, 5000, 150_000);
-    add::<MapMapMVReg>(&mut jobs, Disc::Causal, 4000, 100_000);
-    add::<SMerkle>(&mut jobs, Disc::Any, 4000, 100_000);
-    add::<SLww>(&mut jobs, Disc::Any, 2000, 40_000);
-    add::<SMVReg>(&mut jobs, Disc::Any, 2000, 40_000);
-    add::<SGCounter>(&mut jobs, Disc::Any, 2000, 40_000);
-    add::<SPNCounter>(&mut jobs, Disc::Any, 2000, 40_000);
-    add::<SGSet>(&mut jobs, Disc::Any, 1000, 20_000);
-    add::<SMax>(&mut jobs, Disc::Any, 1000, 20_000);
-    add::<SMin>(&mut jobs, Disc::Any, 1000, 20_000);
-    add::<SGList>(&mut jobs, Disc::Any, 1000, 20_000);
-    jobs.push(super::c11::lww_flag_job(10_000, 200_000));
+    add::<SVClock>(&mut jobs, Disc::Any, 12000, 100_000);
+    add::<SOrswot>(&mut jobs, Disc::Fifo, 15000, 150_000);
+    add::<SList>(&mut jobs, Disc::Causal, 12000, 100_000);
+    add::<MapOrswot>(&mut jobs, Disc::Causal, 15000, 150_000);
+    add::<MapMVReg>(&mut jobs, Disc::Causal, 15000, 150_000);
+    add::<MapMapMVReg>(&mut jobs, Disc::Causal, 12000, 100_000);
+    add::<SMerkle>(&mut jobs, Disc::Any, 12000, 100_000);
+    add::<SLww>(&mut jobs, Disc::Any, 6000, 40_000);
+    add::<SMVReg>(&mut jobs, Disc::Any, 6000, 40_000);
+    add::<SGCounter>(&mut jobs, Disc::Any, 6000, 40_000);
+    add::<SPNCounter>(&mut jobs, Disc::Any, 6000, 40_000);
+    add::<SGSet>(&mut jobs, Disc::Any, 3000, 20_000);
+    add::<SMax>(&mut jobs, Disc::Any, 3000, 20_000);
+    add::<SMin>(&mut jobs, Disc::Any, 3000, 20_000);
+    add::<SGList>(&mut jobs, Disc::Any, 3000, 20_000);
+    jobs.push(super::c11::lww_flag_job(30000, 200_000));
     Property {
         id: "C16",
-        rule: "Histories as in C01/C08; after EVERY step, validate_op is called at the affected replica for EVERY op generated so far (ops next in their actor's order, already-applied ops, and ops that would skip an update). Model: dotted ops (VClock, Orswot add, List insert/delete, Map update) are Ok iff dot.counter <= (largest counter of that actor the replica knows)+1, otherwise the exact error DotRange{actor, known+1..counter} (wrapped in SourceOrder for Map); removes always Ok; MerkleReg Ok iff all children visible, MissingChild(h) with h a non-visible child when some child was never received (a received-but-orphaned child: either verdict accepted); LWWReg ConflictingMarker iff equal marker and different value (dedicated job with colliding markers); all other types always Ok. Non-trivial = probe at a replica knowing >=2 actors' updates for an op that is not its own latest; distinct = distinct Plan hash.".into(),
+        rule: "Histories as in C01/C08; after EVERY step, validate_op is called at the affected replica for EVERY op generated so far (ops next in their actor's order, already-applied ops, and ops that would skip an update). Model: dotted ops (VClock, Orswot add, List insert/delete, Map update) are Ok iff dot.counter <= (largest counter of that actor the replica knows)+1, otherwise the exact error DotRange{actor, known+1..counter} (wrapped in SourceOrder for Map); removes always Ok; MerkleReg Ok iff all children are visible (applying would insert the node at once), otherwise MissingChild(h) with h a non-visible child (never received, or still buffered as an orphan); LWWReg ConflictingMarker iff equal marker and different value (dedicated job with colliding markers); all other types always Ok. Non-trivial = probe at a replica knowing >=2 actors' updates for an op that is not its own latest; distinct = distinct Plan hash.".into(),
         assumptions: vec!["known finding MAP-V1 (exempted, counted): Map::validate_op rejects an in-order update when the actor's previous dot is not the current witness of that key / nested key / nested set (second key, key removed meanwhile, previous update was a nested remove), and for re-deliveries of updates".into()],
         jobs,
     }
